@@ -133,8 +133,7 @@ impl Scenario for Conc {
     fn run(&self, cx: &mut Run) {
         let cfg = cx.src.chan("cfg");
         let nthreads = 2 + cfg.biased_zero(2, 1, 3) as usize;
-        let den = *cfg.pick(&[2u64, 3, 5, 10]);
-        let e1cfg = E1Cfg { max_steps: 3000, switch_num: 1, switch_den: den };
+        let e1cfg = e1::draw_cfg(&cfg, 3000);
         let tm = Arc::new(TokenManager::new(self.level));
         let vm: Arc<VersionManager> = tm.version_manager().clone();
         let ledger = Arc::new(Mutex::new(Ledger { inflight: vec![[0, 0]; nthreads], ..Default::default() }));
@@ -535,7 +534,7 @@ impl Scenario for Seq {
             g.2 = dropped_with_tokens;
         });
         let sched = cx.src.chan("sched");
-        let res = e1::run_threads(&sched, &E1Cfg { max_steps: 20_000, switch_num: 0, switch_den: 1 }, vec![body], None);
+        let res = e1::run_threads(&sched, &E1Cfg { max_steps: 20_000, switch_num: 0, switch_den: 1, ..Default::default() }, vec![body], None);
         let g = out.lock().unwrap();
         for e in &g.0 {
             cx.ev(e);
